@@ -16,8 +16,8 @@ BIN = lambda: os.path.join(vlib.HARNESS, "target", "debug", "yx_seqapi")  # noqa
 
 TIERS = {
     # exhaustive program length, simulation program length, number of simulated programs per family/unit
-    "quick": {"exh": {"text": 2, "array": 3, "map": 2, "xml": 3}, "sim_len": 6, "sim_walks": 40, "sim_n": 1200, "design": 3},
-    "thorough": {"exh": {"text": 3, "array": 4, "map": 3, "xml": 4}, "sim_len": 10, "sim_walks": 400, "sim_n": 20000, "design": 4},
+    "quick": {"exh": {"text": 2, "array": 3, "map": 2, "xml": 3}, "sim_len": 6, "sim_walks": 40, "sim_n": 1200, "shape_n": 5000, "design": 3},
+    "thorough": {"exh": {"text": 3, "array": 4, "map": 3, "xml": 4}, "sim_len": 10, "sim_walks": 400, "sim_n": 20000, "shape_n": 200000, "design": 4},
 }
 
 
@@ -25,9 +25,9 @@ def _h(*a):
     return int(hashlib.sha256(("|".join(str(x) for x in a)).encode()).hexdigest()[:12], 16)
 
 
-def _cfg_text(fam, unit, maxops, inv):
-    return ("CONSTANTS\n  Family = \"%s\"\n  Unit = \"%s\"\n  MaxOps = %d\nSPECIFICATION Spec\nINVARIANTS %s\nCHECK_DEADLOCK FALSE\n"
-            % (fam, unit, maxops, inv))
+def _cfg_text(fam, unit, maxops, inv, shape="NoShape"):
+    return ("CONSTANTS\n  Family = \"%s\"\n  Unit = \"%s\"\n  MaxOps = %d\n  Shape <- %s\nSPECIFICATION Spec\nINVARIANTS %s\nCHECK_DEADLOCK FALSE\n"
+            % (fam, unit, maxops, shape, inv))
 
 
 def _write_cfg(name, text):
@@ -64,6 +64,10 @@ def gen_family(fam, unit, tier, workdir, mode):
         n = plan["exh"][fam]
         cfg = _write_cfg("G_sq_%s_%s_%d.cfg" % (fam, unit, n), _cfg_text(fam, unit, n, inv))
         g = vlib.generate("MC_SeqApi", cfg, os.path.join(wd, "g"))
+    elif mode.startswith("shape:"):
+        shape, n = mode[6:], int(mode[-1])
+        cfg = _write_cfg("G_sq_%s_%s_%s.cfg" % (fam, unit, shape), _cfg_text(fam, unit, n, inv, shape))
+        g = vlib.generate("MC_SeqApi", cfg, os.path.join(wd, "g"), timeout=1500)
     else:
         n = plan["sim_len"]
         cfg = _write_cfg("G_sq_%s_%s_%d.cfg" % (fam, unit, n), _cfg_text(fam, unit, n, inv))
@@ -83,6 +87,8 @@ def gen_family(fam, unit, tier, workdir, mode):
     uniq.sort(key=lambda h: json.dumps(h, sort_keys=True))
     if mode == "sim" and len(uniq) > plan["sim_n"]:
         uniq = random.Random(_h(seed, gname, "sample")).sample(uniq, plan["sim_n"])
+    if mode.startswith("shape:") and len(uniq) > plan["shape_n"]:
+        uniq = random.Random(_h(seed, gname, "sample")).sample(uniq, plan["shape_n"])
     scheds = [to_schedule(h, "%s-%06d" % (gname, i), unit, random.Random(_h(seed, gname, i))) for i, h in enumerate(uniq)]
     shutil.rmtree(wd, ignore_errors=True)
     return scheds, {"group": gname, "distinct": g["distinct"], "generated": g["generated"], "depth": g["depth"], "wall": g["wall"],
@@ -109,7 +115,7 @@ def run_all(tier, workdir):
             d = vlib.design_check("MC_SeqApi", cfg, os.path.join(workdir, "d-%s-%s" % (fam, unit)), timeout=900)
             designs.append({"config": cfg, "distinct": d["distinct"], "generated": d["generated"], "depth": d["depth"], "wall": d["wall"],
                             "coverage": d["coverage"]})
-            for mode in ("exh", "sim"):
+            for mode in ("exh", "sim") + ((("shape:ShapeFmt4",) + (("shape:ShapeFmt5",) if tier == "thorough" else ())) if fam == "text" else ()):
                 sc, st = gen_family(fam, unit, tier, workdir, mode)
                 scheds += sc
                 gstats.append(st)
